@@ -14,10 +14,10 @@ import (
 
 type invCase struct {
 	G      GSpec
-	Perm   []int   // relabelling pi: the relabelled graph is G.Induced(Perm)
-	Order  []int   // vertex order for GreedyColor
-	Colour []int   // a candidate colouring for IsProperColouring (any length, any values)
-	Bounds []int   // length bounds for the counting functions (C10)
+	Perm   []int    // relabelling pi: the relabelled graph is G.Induced(Perm)
+	Order  []int    // vertex order for GreedyColor
+	Colour []int    // a candidate colouring for IsProperColouring (any length, any values)
+	Bounds []int    // length bounds for the counting functions (C10)
 	Pairs  [][2]int // vertex pairs (C10, large graphs)
 }
 
